@@ -59,7 +59,7 @@ fn apply_batch(set: &mut Vec<Element>, adds: &[Element], dels: &[Element]) {
 
 pub fn gen_c14(em: &mut Emitter, rng: &mut Rng) {
     em.rule = "random accumulator histories (1..4 batches of 0..4 additions / deletions, tracked element inside or outside, \
-               deleted or not) on the real vb20 API; every coefficient vector, accumulator value, from-scratch / batch / \
+               deleted or not; one history in five with a degenerate batch whose elements sum to −α, i.e. an identity update coefficient) on the real vb20 API; every coefficient vector, accumulator value, from-scratch / batch / \
                multi-batch (every contiguous grouping) / single-step witness is compared with the Lean model in \
                discrete-log space (model scalar s ↦ s·G1 compared with the real compressed point); oracle: updated witness \
                = recomputed witness and verifies unless the element was deleted, then never verifies".into();
@@ -96,6 +96,11 @@ pub fn gen_c14(em: &mut Emitter, rng: &mut Rng) {
         }
         // batches
         let nb = 1 + rng.below(if em.thorough() { 5 } else { 4 }) as usize;
+        // one history in five publishes a degenerate batch: 3..4 additions whose sum is −α (the second-highest update
+        // coefficient is then the point at infinity), deleted together in the next batch (same for the deletion side)
+        let crafted = hi % 5 == 2;
+        let nb = if crafted { nb.max(2) } else { nb };
+        let mut crafted_set: Vec<Element> = vec![];
         let mut batches: Vec<Batch> = vec![];
         let mut acc = acc0;
         let mut ever: Vec<Element> = set.clone();
@@ -103,8 +108,9 @@ pub fn gen_c14(em: &mut Emitter, rng: &mut Rng) {
         let mut y_deleted_at: Option<usize> = None;
         for bi in 0..nb {
             // one batch in six is a no-op epoch (nothing added, nothing deleted: an empty coefficient list)
-            let noop = rng.chance(1, 6);
+            let noop = rng.chance(1, 6) && !(crafted && bi < 2);
             let na = if noop { 0 } else { rng.below(5) as usize };
+            let na = if crafted && bi == 0 { 0 } else { na };
             let mut adds = vec![];
             while adds.len() < na {
                 let e = small_elem(rng);
@@ -113,22 +119,46 @@ pub fn gen_c14(em: &mut Emitter, rng: &mut Rng) {
                     adds.push(e);
                 }
             }
+            if crafted && bi == 0 {
+                let k = 2 + rng.below(2) as usize;
+                while adds.len() < k {
+                    let e = small_elem(rng);
+                    if !ever.contains(&e) && !bool::from((e.0 + alpha).is_zero()) {
+                        ever.push(e);
+                        adds.push(e);
+                    }
+                }
+                let closing = Element(-alpha - adds.iter().fold(Scalar::ZERO, |a, e| a + e.0));
+                if !ever.contains(&closing) && !bool::from((closing.0 + alpha).is_zero()) {
+                    ever.push(closing);
+                    let pos = rng.below(adds.len() as u64 + 1) as usize;
+                    adds.insert(pos, closing);
+                    crafted_set = adds.clone();
+                    em.count("crafted:additions-sum-to-minus-key");
+                }
+            }
             let mut dels = vec![];
             let nd = if noop { 0 } else { (rng.below(5) as usize).min(set.len()) };
+            let nd = if crafted && bi == 1 && !crafted_set.is_empty() { 0 } else { nd };
+            if crafted && bi == 1 && !crafted_set.is_empty() {
+                dels = crafted_set.clone();
+                rng.shuffle(&mut dels);
+                em.count("crafted:deletions-sum-to-minus-key");
+            }
             let mut cand: Vec<Element> = set.iter().cloned().filter(|e| *e != y).collect();
             rng.shuffle(&mut cand);
             for e in cand.into_iter().take(nd) {
                 dels.push(e);
             }
             // delete the tracked element itself in some histories
-            if !noop && tracked_inside && y_deleted_at.is_none() && rng.chance(1, 6) {
+            if !noop && !(crafted && bi < 2) && tracked_inside && y_deleted_at.is_none() && rng.chance(1, 6) {
                 let pos = rng.below(dels.len() as u64 + 1) as usize;
                 dels.insert(pos, y);
                 y_deleted_at = Some(bi);
             }
             // an element both added and deleted in the same batch (net no-op on the value, but present in the
             // published lists): a fresh one, or a current member other than y
-            if !noop && rng.chance(1, 4) {
+            if !noop && !(crafted && bi < 2) && rng.chance(1, 4) {
                 if rng.coin() && !adds.is_empty() {
                     let e = adds[rng.below(adds.len() as u64) as usize];
                     let pos = rng.below(dels.len() as u64 + 1) as usize;
